@@ -92,7 +92,7 @@ pub fn gen_case(rng: &mut Rng) -> MergeCase {
         sources.push((cfg, entries));
     }
     let kind = *rng.pick(&[MergeKind::Inject, MergeKind::Inject, MergeKind::Concat, MergeKind::First, MergeKind::Last]);
-    MergeCase { sources, kind, pattern, path: rng.below(3) }
+    MergeCase { sources, kind, pattern, path: rng.below(4000) }
 }
 
 /// The offline checker over the merge-call log.
@@ -189,6 +189,7 @@ fn check_case(ctx: &Ctx, stream: &str, idx: u64, case: &MergeCase, rng: &mut Rng
     ctx.tag("patterns", case.pattern);
     ctx.tag("source_counts", &case.sources.len().min(8).to_string());
     ctx.tag("merge_functions", case.kind.name());
+    ctx.tag("builder_paths", ["add", "push", "extend", "mixed add/push/extend"][case.path % 4]);
     // ties at a source's block edge
     for (bytes, (_, es)) in files.iter().zip(&case.sources) {
         if let Ok(df) = decoder::decode(bytes, None) {
@@ -206,8 +207,8 @@ fn check_case(ctx: &Ctx, stream: &str, idx: u64, case: &MergeCase, rng: &mut Rng
         for b in &files {
             cursors.push(Reader::new(Cursor::new(&b[..])).and_then(|r| r.into_cursor()).map_err(|e| format!("open source: {}", e))?);
         }
-        let mut b = MergerBuilder::new(mf);
-        match case.path {
+        let mut b = if case.path % 2 == 0 { MergerBuilder::new(mf) } else { grenad::Merger::builder(mf) };
+        match case.path % 4 {
             0 => {
                 for c in cursors {
                     b = b.add(c);
@@ -218,7 +219,30 @@ fn check_case(ctx: &Ctx, stream: &str, idx: u64, case: &MergeCase, rng: &mut Rng
                     b.push(c);
                 }
             }
-            _ => b.extend(cursors),
+            2 => b.extend(cursors),
+            _ => {
+                // mixed: sources registered through add, push and several extend calls, in
+                // groups whose sizes are drawn from the case's path seed
+                let mut r = Rng::new(case.path as u64);
+                let mut it = cursors.into_iter().peekable();
+                while it.peek().is_some() {
+                    match r.below(3) {
+                        0 => {
+                            let c = it.next().unwrap();
+                            b = b.add(c);
+                        }
+                        1 => {
+                            let c = it.next().unwrap();
+                            b.push(c);
+                        }
+                        _ => {
+                            let n = r.range(1, 3);
+                            let group: Vec<_> = it.by_ref().take(n).collect();
+                            b.extend(group);
+                        }
+                    }
+                }
+            }
         }
         Ok(b.build())
     };
